@@ -146,6 +146,8 @@ def gen_case(rng, tier):
              "um": rng.random() < 0.8, "uv": rng.random() < 0.5, "uw": rng.random() < 0.5}
         if name in ("gmm_map_fit", "gmm_ml_fit"):
             o["rejected_first"] = rng.random() < 0.25
+        if name in ("isv_fit", "jfa_fit", "isv_fit_array", "jfa_fit_array"):
+            o["with_ubm_kwargs"] = rng.random() < 0.3
         if name == "gmm_map_fit":
             # enrolment from a very short (or empty) utterance, and a raised occupancy threshold:
             # possibly no component gathers enough evidence to move
@@ -236,6 +238,8 @@ class Pool:
             self.prior.means = pm
         # option arrays the caller owns and re-uses for several machines
         self.alpha_arr = np.full(c, 0.5)
+        self.ubm_kwargs = {"n_gaussians": c, "max_fitting_steps": 3, "update_variances": True,
+                           "update_weights": True, "convergence_threshold": 1e-3}
         self.init_weights = np.array(self.ubm.weights)
         rs_ = np.random.RandomState(len(case["X0"]) * 7 + c)
         self.offsets = rs_.randn(c, self.X0.shape[1]) * 0.1      # caller-owned channel offsets
@@ -278,7 +282,8 @@ class Pool:
               "ys_list": digest(self.ys_list), "init_c": digest(self.init_c),
               "offsets": digest(self.offsets), "model_means": digest(self.model_means),
               "alpha_arr": digest(self.alpha_arr), "init_weights": digest(self.init_weights),
-              "ubm": obj_digest(self.ubm), "prior": obj_digest(self.prior)}
+              "ubm": obj_digest(self.ubm), "prior": obj_digest(self.prior),
+              "ubm_kwargs": digest(sorted((k, repr(v)) for k, v in self.ubm_kwargs.items()))}
         for i, s in enumerate(self.stats):
             dg[f"stats[{i}]"] = obj_digest(s)
         return dg
@@ -303,6 +308,12 @@ def obj_digest(o):
         return digest("gmm", np.asarray(o.weights), np.asarray(o.means), np.asarray(o.variances),
                       np.asarray(o.variance_thresholds), np.asarray(o.log_weights),
                       np.asarray(o.g_norms), str(o.trainer),
+                      # the object's settings are as much the caller's as its arrays
+                      [repr(getattr(o, a, None)) for a in
+                       ("max_fitting_steps", "convergence_threshold", "update_means",
+                        "update_variances", "update_weights", "mean_var_update_threshold",
+                        "map_relevance_factor", "random_state")],
+                      np.asarray(o.map_alpha) if getattr(o, "map_alpha", None) is not None else None,
                       obj_digest(o.ubm) if o.ubm is not None else None)
     if isinstance(o, KMeansMachine):
         return digest("km", np.asarray(o.centroids_))
@@ -419,12 +430,17 @@ def _call(pool, o, rec, label):
         res = under_sim(lambda: g.fit(dX(X))) if use_da else g.fit(X)
         return [np.array(res.means), np.array(res.variances), np.array(res.weights)], res
     if name in ("isv_fit", "jfa_fit", "isv_fit_array", "jfa_fit_array"):
+        ukw = {}
+        if o.get("with_ubm_kwargs"):
+            # a project-wide UBM configuration dict is passed along with the trained UBM
+            ukw["ubm_kwargs"] = pool.ubm_kwargs
+            rec.probe("ubm_and_ubm_kwargs_given_together")
         if name.startswith("isv"):
             m = ISVMachine(case["rU"], em_iterations=o["it"], ubm=pool.ubm,
-                           random_state=o["np_seed"] % 1000)
+                           random_state=o["np_seed"] % 1000, **ukw)
         else:
             m = JFAMachine(case["rU"], case["rV"], em_iterations=o["it"], ubm=pool.ubm,
-                           random_state=o["np_seed"] % 1000)
+                           random_state=o["np_seed"] % 1000, **ukw)
         if name.endswith("_array"):
             if use_da or use_bag:
                 if sched is None:
